@@ -1461,6 +1461,11 @@ func toFilterMap(
 		switch t := sourceKey.(type) {
 		case *PropertyIndex:
 			_, ok := innerSourceValue.(map[string]any)
+			if !ok && (innerSourceKey == request.FilterOpAnd || innerSourceKey == request.FilterOpOr) {
+				// The list of a compound operator holds filter objects on the same (child) items:
+				// `{children: {_and: [{field: {...}}, ...]}}`.
+				_, ok = innerSourceValue.([]any)
+			}
 			if ok && mapping != nil && t.Index < len(mapping.ChildMappings) {
 				// If the innerSourceValue is also a map, then we should parse the nested clause
 				// using the child mapping, as this key must refer to a host property in a join
